@@ -13,6 +13,10 @@ class ILOpsHolder:
     def __init__(self):
         # Total count of hybrids seen during transformation
         self.hybrid_op_count = 0
+        # Prefix of the names of the temporary variables which hold the value of a hybrid.
+        # Sub-routines share the local variable name space with their callers.
+        # So their temporaries need distinct names.
+        self.hybrid_tmp_prefix = "h_tmp"
         self.hybrid_effect_dict: dict[str:Sequence] = dict()
         self.read_ops: dict = dict()
         self.exec_ops: dict = dict()
